@@ -46,8 +46,8 @@ Section Derived.
   Definition dsin (d : T) : T := nsin (to_radians d).
   Definition dcos (d : T) : T := ncos (to_radians d).
   Definition dtan (d : T) : T := ntan (to_radians d).
-  Definition dasin (d : T) : T := nasin (to_radians d).
-  Definition dacos (d : T) : T := nacos (to_radians d).
-  Definition datan (d : T) : T := natan (to_radians d).
+  Definition dasin (x : T) : T := to_degrees (nasin x).
+  Definition dacos (x : T) : T := to_degrees (nacos x).
+  Definition datan (x : T) : T := to_degrees (natan x).
   Definition approx_eq (a b eps : T) : bool := nabs (a - b) <? eps.
 End Derived.
